@@ -631,14 +631,29 @@ Qed.
 
 (* ---------- the comment layer of the round trip, in isolation ---------- *)
 
-(* the hypothesis on comments, written out: any text without TAB, VT, FF, CR — the empty comment, a
-   comment that ends in a line break, blank lines, leading / trailing spaces, `#`, NBSP are all inside *)
-Theorem doc_hyp_spec : docb None = true /\ forall d, docb (Some d) = forallb (fun c => negb (mem_N c [9; 11; 12; 13])) d.
+(* the hypothesis on comments, written out: NO character is excluded — TAB, VT, FF, CR, runs of spaces, leading and
+   trailing spaces, `#`, the empty comment, blank lines, a trailing line break are all inside —; the one thing a
+   comment must not have is a line (LF separates them) that ENDS with CR, and such a comment the writer refuses
+   (unwritable_comment_refused): nothing is lost silently *)
+Theorem doc_hyp_spec : docb None = true /\ forall d, docb (Some d) = forallb (fun l => negb (ends_cr l)) (split_on cLF d).
 Proof. split; reflexivity. Qed.
 
-(* Th: for EVERY such comment, at every indentation: the COMMENT lines the writer emits (one per
+Theorem ends_cr_spec l : ends_cr l = true <-> exists p, l = p ++ [cCR].
+Proof.
+  induction l as [|c l IH]; cbn [ends_cr].
+  - split; [discriminate|]. intros ([|? ?] & E); discriminate.
+  - destruct l as [|x l].
+    + split.
+      * intros H. apply N.eqb_eq in H. subst c. exists []. reflexivity.
+      * intros ([|y [|? ?]] & E); try discriminate. cbn [app] in E. injection E as ->. reflexivity.
+    + rewrite IH. split.
+      * intros (p & E). exists (c :: p). cbn [app]. rewrite E. reflexivity.
+      * intros ([|y p] & E); [discriminate|]. cbn [app] in E. injection E as -> E. exists p. exact E.
+Qed.
+
+(* Th: for EVERY comment the writer accepts, at every indentation: the COMMENT lines the writer emits (one per
    `split('\n')` part, so a trailing line break gives a last `COMMENT ` line and the empty comment one
-   bare `COMMENT ` line) are tokenised and read back to exactly that comment *)
+   bare `COMMENT ` line) are tokenised — tag, then the text as it is — and read back to exactly that comment *)
 Theorem comment_roundtrip ind doc rest : docb doc = true -> stops ind rest ->
   filter_map enigma_line (comment_lines ind doc) = e_comments ind doc
   /\ forallb line_ok (comment_lines ind doc) = true
@@ -649,3 +664,10 @@ Proof.
   - destruct doc as [d|]; cbn [comment_lines]; [apply map_length|reflexivity].
   - apply comments_loop_doc; assumption.
 Qed.
+
+(* the reader's half needs no hypothesis at all: whatever text stands after `COMMENT` and one separator (any of the six
+   Java white-space characters) is the comment line, character for character *)
+Theorem comment_line_verbatim n w l : java_ws w = true ->
+  enigma_line (tabs n ++ s_COMMENT ++ w :: l) = Some (mkEline n s_COMMENT [l])
+  /\ forall doc, ins_comment doc (mkEline n s_COMMENT [l]) = Some (match doc with Some d => d ++ cLF :: l | None => l end).
+Proof. intros Hw. split; [apply enigma_line_comment_any; exact Hw|]. intros [d|]; reflexivity. Qed.
